@@ -251,7 +251,9 @@ PROPS = {
                    # feeds over simulator-served actors and collections, through splicer.NewSplicer and the UI
                    {"name": "C07", "quick": 128, "thorough": 4000, "workers": 16},
                    # the order of a feed's sources as the configuration file lists them is the order the splicer is given
-                   {"name": "C19", "quick": 1500, "thorough": 40000}],
+                   {"name": "C19", "quick": 1500, "thorough": 40000},
+                   # feeds built by the program's own constructor over served collections, one source busy (35..70 items)
+                   {"name": "C11net", "quick": 120, "thorough": 4000, "workers": 8}],
         "rule_more": '; configuration files with [feeds] whose sources are unsorted and repeated: the parsed feeds keep the listed order (group C19)',
         "rule": "0..4 sources of 0..7 items, one of them sometimes 15..44 items long (newest-first with ties, or unsorted; missing timestamps; empty and nil sources; the same item listed by two sources) over exact-delivery synthetic containers, flat or paged like a collection (every page a container of its own, continuation = page + offset); timestamp classes: whole seconds, differences below one second, equal instants written in different zones, far past / far future around and before the zero time, every source carrying the same few instants; x scripts of 1..6 harvests (sizes 0..6 and 1 / total-1 / total / total+1, start offsets, 'again' = the same position asked twice, 'old' = an earlier continuation asked after newer ones exist, 'par' = four concurrent askers); "
                 "non-trivial = at least two sources and three delivered items; distinct by op content",
